@@ -19,6 +19,6 @@ test)
   patch=$2; prop=$3; tier=${4:-quick}
   git -C $BOX/repo status --short | grep -q . && { echo "box repo not clean"; exit 2; }
   git -C $BOX/repo apply "$patch" || exit 2
-  (cd $BOX/verif && bin/check "$prop" --tier "$tier" 2>&1 | grep -E "VIOLATION|KNOWN-FINDING|RESULT|DRIFT|TOOL-ERROR" | head -12 | cut -c1-260)
+  (cd $BOX/verif && bin/check "$prop" --tier "$tier" > $BOX/last.log 2>&1; grep -E "VIOLATION|KNOWN-FINDING|DRIFT" $BOX/last.log | head -8 | cut -c1-260; grep -E "RESULT|TOOL-ERROR" $BOX/last.log | tail -2 | cut -c1-260)
   git -C $BOX/repo checkout -- . ; git -C $BOX/repo clean -fdq;;
 esac
